@@ -114,6 +114,22 @@ def direct_oracle(o, cls, before_line, after_line):
         return f"the statement ends with {cls}"
     if cls == "reject" or ty is None:
         return None if bs == as_ else "a statement rejected by the parser changed the store"
+    # what the generator wrote down for the statement it produced (never through the BQL parser) against what the
+    # real hooks extracted: kind, graph names, data triples
+    xty = kv(o, "xty")
+    if xty is not None:
+        if xty != ty:
+            return f"the statement is read as kind {ty} although its text is of kind {xty}"
+        for k in ("gn", "og", "g"):
+            if kv(o, "x" + k) is not None and names_of(o, "x" + k) != names_of(o, k):
+                return f"the graph names read from the statement ({k}) are not the ones its text lists"
+        if kv(o, "xdata") is not None:
+            want = []
+            for t in kv(o, "xdata").split(";"):
+                s_, p_, ob_ = t.split("|")
+                want.append((s_, norm_pred(p_), norm_pred(ob_)))
+            if want != data_of(o):
+                return "the triples read from the statement are not the triples its text lists"
     if ty in ("1", "2") and cls == "ok":
         targets = names_of(o, "og") if ty == "1" else names_of(o, "g")
         data = set(data_of(o))
@@ -157,7 +173,7 @@ def direct_oracle(o, cls, before_line, after_line):
 
 
 def exec_both(lines, tag):
-    d = os.path.join(core.BUILD, "scratch")
+    d = core.SCRATCH
     os.makedirs(d, exist_ok=True)
     p = os.path.join(d, f"{tag}.ops")
     with open(p, "w") as f:
@@ -219,7 +235,7 @@ def run(r: core.Run):
             pr["ok"] = False
             pr["failed"].append(("leanchecker", out[-500:]))
     r.cov["rule"] = RULE
-    d = os.path.join(core.BUILD, "scratch")
+    d = core.SCRATCH
     os.makedirs(d, exist_ok=True)
     base = os.path.join(d, "C04-stmts")
 
